@@ -1,0 +1,14 @@
+//go:build verif
+
+package linter
+
+import (
+	"github.com/ysugimoto/falco/v2/ast"
+	"github.com/ysugimoto/falco/v2/linter/context"
+)
+
+// VerifResolveIncludes exposes the include expansion of the root program
+// (resolveIncludeStatements) to the verification harness.
+func (l *Linter) VerifResolveIncludes(statements []ast.Statement, ctx *context.Context, isRoot bool) []ast.Statement {
+	return l.resolveIncludeStatements(statements, ctx, isRoot)
+}
